@@ -90,6 +90,19 @@ class Interp:
                 return a is b
             if isinstance(op, ast.IsNot):
                 return a is not b
+        if isinstance(e, ast.Subscript) and ast.unparse(e.value) == self.string_var and isinstance(e.slice, ast.Slice):
+            # a slice never raises: characters beyond the end are simply missing
+            lo = self.ev(e.slice.lower, env) if e.slice.lower is not None else 0
+            hi = self.ev(e.slice.upper, env) if e.slice.upper is not None else None
+            if hi is None or e.slice.step is not None or hi - lo > 2 or lo < 0:
+                raise AnalysisError(f"scanner slice not understood: {ast.unparse(e)[:60]}")
+            n_ = env["__len__"]()
+            out = [env["__at__"](k) for k in range(lo, min(hi, n_))]
+            if len(out) == 1:
+                return out[0]
+            if not out:
+                return ""
+            raise AnalysisError(f"scanner slice of more than one character: {ast.unparse(e)[:60]}")
         if isinstance(e, ast.Subscript) and ast.unparse(e.value) == self.string_var:
             idx = self.ev(e.slice, env)
             return env["__at__"](idx)
@@ -252,9 +265,12 @@ def extract_quote_split(fn: ast.FunctionDef, consts: Optional[Dict[str, object]]
     for s in fn.body:
         if isinstance(s, ast.Assign) and isinstance(s.targets[0], ast.Name) and isinstance(s.value, ast.Constant):
             init[s.targets[0].id] = s.value.value
-    state_names = sorted(n for n, v in init.items() if isinstance(v, bool))
+    # scanner state: flags and (string-valued) "which delimiter is open" variables that the loop updates
+    assigned_in_loop = {t.id for lp in fn.body if isinstance(lp, (ast.While, ast.For)) for st in ast.walk(lp)
+                        if isinstance(st, ast.Assign) for t in st.targets if isinstance(t, ast.Name)}
+    state_names = sorted(n for n, v in init.items() if isinstance(v, bool) or (isinstance(v, str) and n in assigned_in_loop))
     if not state_names:
-        raise AnalysisError("quote_split: boolean scanner state not found")
+        raise AnalysisError("quote_split: scanner state not found")
     params = [a.arg for a in fn.args.args]
     if len(params) < 2:
         raise AnalysisError("quote_split: expected (sep, string, ...)")
